@@ -36,6 +36,11 @@ def main():
             continue
         prop = sid.split('-')[0]
         props = [prop]
+        try:
+            meta = json.load(open(os.path.join(d, 'meta.json')))
+            props += [x for x in meta.get('also_run', []) if x not in props]
+        except (OSError, ValueError):
+            pass
         if args.all_checks:
             props += [f"C{i:02d}" for i in range(1, 21)
                       if f"C{i:02d}" not in (prop, 'C16')]
